@@ -616,15 +616,15 @@ Definition read_envelope (ld : nat) : P (list (list (bytes * bytes))) :=
   expect_special (ch ")") ;;;
   ret [a1; a2; a3; a4; a5; a6].
 
-(* readBodyFldParam: strings alternate key / value; an empty key is not remembered *)
-Fixpoint params_pending_key (k : bytes) (l : list bytes) : bytes :=
+(* readBodyFldParam: strings alternate key / value; hasKey after the whole list *)
+Fixpoint params_pending_key (has_key : bool) (l : list bytes) : bool :=
   match l with
-  | [] => k
-  | s :: r => if is_nil k then params_pending_key s r else params_pending_key [] r
+  | [] => has_key
+  | s :: r => params_pending_key (negb has_key) r
   end.
 Definition read_body_fld_param (ld : nat) : P unit :=
   l <- expect_nlist ld (fun _ => expect_string) ;;
-  if is_nil (params_pending_key [] l) then ret tt else fail.
+  if params_pending_key false l then fail else ret tt.
 
 (* readBodyFldDsp *)
 Definition read_body_fld_dsp (ld : nat) : P unit :=
